@@ -9,6 +9,7 @@ run is instantiated at the end.
 -/
 import Kodama.Lemmas.GenericRun
 import Kodama.Lemmas.SpecDecide
+import Kodama.Lemmas.AverageClamp
 set_option linter.unusedSimpArgs false
 set_option linter.unusedVariables false
 namespace Kodama.GenericExample
@@ -57,9 +58,13 @@ theorem avg_lt (sa sb va vb : Nat) (ha : 0 < sa) (hb : 0 < sb) (h1 : va < 100000
 theorem closed_average : UpdClosed G .average := by
   intro sizes sa sb dist x va vb v _ hs _ ha hb h
   obtain ⟨h1, h2⟩ := hs rfl
-  simp only [updFn, Gen.average, pure, Except.pure, Except.ok.injEq] at h
+  simp only [updFn, pure, Except.pure, Except.ok.injEq] at h
   subst h
-  exact avg_lt sa sb va vb h1 h2 ha hb
+  -- clamped average: the result is an argument or the (rounded-down) mean
+  rcases Gen.average_cases va vb sa sb with e | e | ⟨e, -⟩ <;> rw [e]
+  · exact ha
+  · exact hb
+  · exact avg_lt sa sb va vb h1 h2 ha hb
 
 theorem closed_weighted : UpdClosed G .weighted := by
   intro sizes sa sb dist x va vb v _ _ _ ha hb h
